@@ -271,6 +271,25 @@ get_isowk(unsigned int y)
 }
 
 static unsigned int
+ymd_get_wkyr(unsigned int y, unsigned int m, unsigned int d)
+{
+/* the week-year Y-M-D is in, the year's last days may belong to the first
+ * week of the next one, its first days to the last week of the one before */
+	int hang;
+
+	if (m == 12U && d >= 29U &&
+	    (hang = ywd_get_jan01_hang(get_jan01_wday(y + 1U))) < 0 &&
+	    (int)d >= 32 + hang) {
+		return y + 1U;
+	} else if (m == 1U && d <= 3U &&
+		   (hang = ywd_get_jan01_hang(get_jan01_wday(y))) > 0 &&
+		   (int)d <= hang) {
+		return y - 1U;
+	}
+	return y;
+}
+
+static unsigned int
 ywd_get_yday(unsigned int y, int w, int d)
 {
 /* since everything is in ISO 8601 format, getting the doy is a matter of
@@ -323,21 +342,6 @@ yd_to_md(unsigned int y, int doy)
 	}
 	return (struct md_s){m, d};
 #undef GET_REM
-}
-
-static struct md_s
-ywd_to_md(unsigned int y, int w, echs_wday_t d)
-{
-	unsigned int yday = ywd_get_yday(y, w, d);
-	struct md_s res = yd_to_md(y, yday);
-
-	if (UNLIKELY(res.m == 0)) {
-		res.m = 12;
-		res.d--;
-	} else if (UNLIKELY(res.m == 13)) {
-		res.m = 1;
-	}
-	return res;
 }
 
 static unsigned int
@@ -489,9 +493,13 @@ md_match_p(struct md_s md, bituint31_t m, bitint31_t d)
 /* recurrence helpers */
 static void
 fill_yly_ywd(
-	bitint383_t *restrict cand, unsigned int y,
-	const bitint63_t woy, const bitint447_t *dow)
+	bitint383_t cand[static 3U], unsigned int y,
+	const bitint63_t woy, const bitint447_t *dow, bituint31_t mon)
 {
+/* candidates are the days of the weeks WOY of week-year Y, the ones of
+ * them in the calendar year before or after go to CAND[1] and CAND[2] */
+	const int nwk = (int)get_isowk(y);
+	const int nyd = (y % 4U) ? 365 : 366;
 	int wk;
 
 	for (bitint_iter_t wki = 0UL;
@@ -499,18 +507,38 @@ fill_yly_ywd(
 		/* ywd */
 		int dc;
 
+		if (wk > nwk || wk < -nwk) {
+			/* no such week in Y */
+			continue;
+		}
 		for (bitint_iter_t dowi = 0UL;
 		     (dc = bi447_next(&dowi, dow), dowi);) {
 			struct md_s md;
 			echs_wday_t wd;
+			size_t ci = 0U;
+			int yd;
 
 			if (dc <= MIR || (wd = (echs_wday_t)dc) > SUN) {
 				continue;
-			} else if (!(md = ywd_to_md(y, wk, wd)).m) {
+			}
+			if ((yd = (int)ywd_get_yday(y, wk, wd)) <= 0) {
+				/* last days of the year before */
+				md = (struct md_s){12U, 31U + yd};
+				ci = 1U;
+			} else if (yd > nyd) {
+				/* first days of the year after */
+				md = (struct md_s){1U, yd - nyd};
+				ci = 2U;
+			} else if (!(md = yd_to_md(y, yd)).m || md.m > 12U) {
+				continue;
+			}
+			if (bui31_has_bits_p(mon) &&
+			    !bui31_has_bit_p(mon, md.m)) {
+				/* month is masked out */
 				continue;
 			}
 			/* otherwise it's looking good */
-			ass_bi383(cand, pack_cand(md.m, md.d));
+			ass_bi383(&cand[ci], pack_cand(md.m, md.d));
 		}
 	}
 	return;
@@ -911,6 +939,35 @@ cnt_cand(const bitint383_t *cand)
 	return n;
 }
 
+static void
+clr_poss_ywd(bitint383_t cand[static 3U], const bitint383_t *poss)
+{
+/* clr_poss() for the days of a week-year, they come in three sets:
+ * the calendar year before, the year itself and the year after */
+	static const size_t ord[] = {1U, 0U, 2U};
+	const size_t n =
+		cnt_cand(&cand[0U]) + cnt_cand(&cand[1U]) + cnt_cand(&cand[2U]);
+	size_t idx = 0U;
+
+	if (!bi383_has_bits_p(poss)) {
+		/* nothing to do */
+		return;
+	}
+	for (size_t k = 0U; k < countof(ord); k++) {
+		bitint383_t res = {0U};
+		int c;
+
+		for (bitint_iter_t ci = 0UL;
+		     (c = bi383_next(&ci, &cand[ord[k]]), ci);) {
+			if (pos_sel_p(poss, ++idx, n)) {
+				ass_bi383(&res, c);
+			}
+		}
+		cand[ord[k]] = res;
+	}
+	return;
+}
+
 /* shifted candidates may land in the year of their period, in one of its
  * neighbours or, for shifts of about a year from a day at the turn of the
  * year, two years away: five sets, the period's own comes first */
@@ -1151,10 +1208,19 @@ rrul_fill_yly(echs_instant_t *restrict tgt, size_t nti, rrulsp_t rr)
 		/* we've been told the year the proto instant was generated
 		 * in, just carry on from there */
 		y = tgt[GRP_CCH_OFF].y;
-	} else if (echs_shift_dvalue(rr->shift) > 0 ||
-		   echs_shift_bday_p(rr->shift) && !echs_shift_neg_p(rr->shift)) {
-		/* start early but stay in step with INTERVAL */
-		y -= rr->inter;
+	} else {
+		if (wd_mask && bi63_has_bits_p(rr->wk) &&
+		    !nd && !bi383_has_bits_p(&rr->doy) &&
+		    srcsca == SCALE_GREGORIAN) {
+			/* ywd, periods are week-years */
+			y = ymd_get_wkyr(y, proto.m, proto.d);
+		}
+		if (echs_shift_dvalue(rr->shift) > 0 ||
+		    echs_shift_bday_p(rr->shift) &&
+		    !echs_shift_neg_p(rr->shift)) {
+			/* start early but stay in step with INTERVAL */
+			y -= rr->inter;
+		}
 	}
 
 	/* fill up the array the hard way */
@@ -1169,7 +1235,7 @@ rrul_fill_yly(echs_instant_t *restrict tgt, size_t nti, rrulsp_t rr)
 		} else if (wd_mask && bi63_has_bits_p(rr->wk) &&
 			   srcsca == SCALE_GREGORIAN) {
 			/* ywd */
-			fill_yly_ywd(cand, y, rr->wk, &rr->dow);
+			fill_yly_ywd(cand, y, rr->wk, &rr->dow, rr->mon);
 		} else if (wd_mask && nm) {
 			/* ymcw or special expand for monthly,
 			 * see note 2 on page 44, RFC 5545 */
@@ -1211,6 +1277,10 @@ rrul_fill_yly(echs_instant_t *restrict tgt, size_t nti, rrulsp_t rr)
 		} else if (!nd && bi383_has_bits_p(&rr->doy)) {
 			/* the months merely limit the year days */
 			;
+		} else if (!nd && wd_mask && bi63_has_bits_p(rr->wk) &&
+			   srcsca == SCALE_GREGORIAN) {
+			/* the months merely limit the weeks */
+			;
 		} else if (!nd) {
 			fill_yly_ymd_all_d(cand, srcsca, y, m, nm, wd_mask);
 		} else {
@@ -1220,8 +1290,16 @@ rrul_fill_yly(echs_instant_t *restrict tgt, size_t nti, rrulsp_t rr)
 		/* limit by setpos, positions count instants, so when there's
 		 * more than one time of the day select while enumerating */
 		if (e.nS * e.nM * e.nH > 1U && bi383_has_bits_p(&rr->pos)) {
-			npos = cnt_cand(cand) * e.nS * e.nM * e.nH;
+			npos = cnt_cand(&cand[CAND_IDX(-1)]) +
+				cnt_cand(&cand[CAND_IDX(0)]) +
+				cnt_cand(&cand[CAND_IDX(1)]);
+			npos *= e.nS * e.nM * e.nH;
 			ipos = 0U;
+		} else if (bi383_has_bits_p(&cand[CAND_IDX(-1)]) ||
+			   bi383_has_bits_p(&cand[CAND_IDX(1)])) {
+			/* days of a week-year */
+			npos = 0U;
+			clr_poss_ywd(cand, &rr->pos);
 		} else {
 			npos = 0U;
 			clr_poss(cand, &rr->pos);
